@@ -62,9 +62,8 @@ OBLIGATIONS = [
     kani("c11_orient_sectors", ["C11", "C10"], "C11.orient.sectors", "bemodel::Orientation::from(f32)"),
     kani("c11_normalize_range", ["C11"], "C11.normalize", "bemodel::utils::normalize"),
     kani("c10_orientation_of_wall", ["C10", "C11"], "C10.wall", "Orientation::from(&Wall) / Tilt::from(&Wall)"),
-    kani("c11_poly_area_triangle", ["C11"], "C11.poly.area", "Polygon::area", bounded="3 vertices, every integer coordinate in [-100,100] (arithmetic exact)", tier="thorough", timeout=3000),
     kani("c11_poly_degenerate", ["C11"], "C11.poly.degenerate", "Polygon::area / perimeter", bounded="0 and 1 vertex"),
-    kani("c13_aabb_slab_exact", ["C13"], "C13.aabb.slab.exact", "AABB::intersects", bounded="integer boxes / origins in [-20,20], direction components in {-1,0,1}: all products exact", tier="thorough", timeout=3000),
+    kani("c13_aabb_slab_exact", ["C13"], "C13.aabb.slab.exact", "AABB::intersects", bounded="integer boxes / origins in [-20,20], direction components in {-1,0,1}: all products exact", timeout=900),
     # ---- C06 leaves -----------------------------------------------------------------------------------
     kani("c06_fround2_contract", ["C06", "C07", "C08"], "C06.fround2", "bemodel::utils::fround2 (kani::requires/ensures, proof_for_contract)", timeout=600),
     kani("c06_fround3_contract", ["C06"], "C06.fround3", "bemodel::utils::fround3 (kani::requires/ensures, proof_for_contract)", tier="thorough", timeout=1800),
@@ -93,8 +92,6 @@ OBLIGATIONS = [
     kani("c13_aabb_mono_x", ["C13"], "C13.aabb.mono", "AABB::intersects / AABB::join (one axis; the other two slabs unbounded)", bounded="per-axis: the slab under test symbolic, the other two (-inf, +inf)", tier="thorough", timeout=3000),
     kani("c13_aabb_mono_y", ["C13"], "C13.aabb.mono", "AABB::intersects / AABB::join (one axis; the other two slabs unbounded)", bounded="per-axis: the slab under test symbolic, the other two (-inf, +inf)", tier="thorough", timeout=3000),
     kani("c13_aabb_mono_z", ["C13"], "C13.aabb.mono", "AABB::intersects / AABB::join (one axis; the other two slabs unbounded)", bounded="per-axis: the slab under test symbolic, the other two (-inf, +inf)", tier="thorough", timeout=3000),
-    kani("c13_partition_p_n2", ["C13"], "C13.partition.P", "BVH::partition_elements_by_centroid (contract P assumed by the Verus unit)", bounded="2 boxes, all 12 coordinates symbolic", tier="thorough", timeout=3000),
-    kani("c13_partition_p_n3", ["C13"], "C13.partition.P", "BVH::partition_elements_by_centroid (contract P assumed by the Verus unit)", bounded="3 boxes, all 18 coordinates symbolic", tier="thorough", timeout=3000),
     verus("bvh_builder", ["C13", "C14"], "C13.builder", "BVH::generate_node_list"),
     # ---- C17 / C03 (convert) -------------------------------------------------------------------------
     kani("c17_day_of_year", ["C17"], "C17.doy", "convert::from_ctehexml::day_of_year"),
